@@ -203,7 +203,10 @@ def run(ctx, prop, focus, n_hist, n_stall, stall_programs=1, n_istall=0):
             break
         for rep in range(10):
             # busy programs: two enqueuer threads keep submitting while a thread sits inside the window
-            prog = poolmon.gen_program(rng, focus, busy=rep % 4 != 3)
+            if rep % 3 == 0:
+                prog = poolmon.gen_program_start_under_load(rng)
+            else:
+                prog = poolmon.gen_program(rng, focus, busy=rep % 4 != 3)
             plan = dict(pt, k=rng.choice([1, 1, 2, 3, 5]), budget=rng.choice([150, 400, 1000]), cap=0.05)
             hits0 = inj.hits
             run_one(ctx, prop, inj, prog, "istall", rng.randrange(1 << 30), plan=plan)
